@@ -48,7 +48,7 @@ ASSUME = [
     "multi-type fields, case-insensitive mode, titles after the first: the theorem speaks about the value as that"
     " title's tokenizer sees it (after earlier in-place lower-casing); invariance of its tokens under that"
     " lower-casing (C11_multitype_inplace_invariant) is NOT proved in full (proved: in-place lower-casing keeps the UTF-8"
-    " segmentation of every byte string, C11_inplace_*_keeps_segments; missing: cuts inside a rune, per-tokenizer dependence): class multitype checks on the real bulk processor"
+    " segmentation of every byte string, C11_inplace_*_keeps_segments; and the invariant itself for keyword/exists titles within their limits, C11_multitype_inplace_invariant_keyword_within_limits; missing: text/path titles, cuts inside a rune): class multitype checks on the real bulk processor"
     " that every title's tokens equal the real tokenizer's tokens on a fresh copy of the original value",
     "query text theorems: the value (word, path) is valid UTF-8 and free of U+E000; the field name is written bare"
     " ([A-Za-z0-9_.]+, not `not`); tokens that alias the shared value buffer are observed after all titles ran",
